@@ -389,11 +389,25 @@ class Discharger(object):
                     if r is not None:
                         rng[rv.get_id()] = (Fraction(r[0]), Fraction(r[1]))
         # delta variables |d| <= lim come as pairs of constraints d <= lim, d >= -lim
+        lo, hi = {}, {}
         for c in extra:
-            if z3.is_le(c) and z3.is_rational_value(c.arg(1)):
-                v = c.arg(0)
-                lim = c.arg(1).as_fraction()
-                rng[v.get_id()] = (-lim, lim)
+            if not isinstance(c, z3.ExprRef) or c.num_args() != 2:
+                continue
+            a0, a1 = c.arg(0), c.arg(1)
+            le, ge = z3.is_le(c), z3.is_ge(c)
+            if z3.is_rational_value(a0) or z3.is_int_value(a0):
+                a0, a1 = a1, a0
+                le, ge = ge, le
+            if not (z3.is_const(a0) and a0.decl().kind() == z3.Z3_OP_UNINTERPRETED and (z3.is_rational_value(a1) or z3.is_int_value(a1))):
+                continue
+            val = a1.as_fraction()
+            if le:
+                hi[a0.get_id()] = min(val, hi.get(a0.get_id(), val))
+            elif ge:
+                lo[a0.get_id()] = max(val, lo.get(a0.get_id(), val))
+        for k in lo:
+            if k in hi:
+                rng[k] = (lo[k], hi[k])
         return rng
 
     def cut_links(self, t):
@@ -497,7 +511,7 @@ class Discharger(object):
         if tol != 0:
             try:
                 diff = z3.simplify(ta2 - tb2, som=True)
-                rng = self.var_ranges([ta2, tb2], extra)
+                rng = self.var_ranges([ta2, tb2], extra + [x for x in pc if isinstance(x, z3.ExprRef)])
                 iv = interval(diff, rng, {})
                 if iv is not None and max(abs(iv[0]), abs(iv[1])) <= Fraction(tol):
                     self.stats['interval'] = self.stats.get('interval', 0) + 1
